@@ -87,10 +87,10 @@ macro_rules! impl_dt_bounds {
 }
 
 impl_dt_bounds! {
-    f64, Const<1>, (); f64, Const<2>, (); f64, Const<3>, (); f64, Dyn, ();
-    Complex<f64>, Const<1>, (); Complex<f64>, Const<2>, (); Complex<f64>, Const<3>, (); Complex<f64>, Dyn, ();
-    f64, Const<1>, Counter; f64, Const<2>, Counter; f64, Const<3>, Counter; f64, Dyn, Counter;
-    Complex<f64>, Const<1>, Counter; Complex<f64>, Const<2>, Counter; Complex<f64>, Const<3>, Counter; Complex<f64>, Dyn, Counter;
+    f64, Const<1>, (); f64, Const<2>, (); f64, Const<3>, (); f64, Const<4>, (); f64, Dyn, ();
+    Complex<f64>, Const<1>, (); Complex<f64>, Const<2>, (); Complex<f64>, Const<3>, (); Complex<f64>, Const<4>, (); Complex<f64>, Dyn, ();
+    f64, Const<1>, Counter; f64, Const<2>, Counter; f64, Const<3>, Counter; f64, Const<4>, Counter; f64, Dyn, Counter;
+    Complex<f64>, Const<1>, Counter; Complex<f64>, Const<2>, Counter; Complex<f64>, Const<3>, Counter; Complex<f64>, Const<4>, Counter; Complex<f64>, Dyn, Counter;
 }
 
 /// A generic computation to be run for one (solver, scalar, dimension) instantiation.
@@ -136,6 +136,7 @@ macro_rules! by_dim {
             (false, 1) => by_kind!($kind, $v, $N, Const<1>, $U),
             (false, 2) => by_kind!($kind, $v, $N, Const<2>, $U),
             (false, 3) => by_kind!($kind, $v, $N, Const<3>, $U),
+            (false, 4) => by_kind!($kind, $v, $N, Const<4>, $U),
             _ => panic!("unsupported dimension"),
         }
     };
